@@ -40,7 +40,7 @@ func parseLoadFile94(reader io.Reader, coresize Address) (WarriorData, error) {
 				data.Name = strings.TrimSpace(raw_line[5:])
 			} else if strings.HasPrefix(lower, ";author") {
 				data.Author = strings.TrimSpace(raw_line[7:])
-			} else if strings.HasPrefix(lower, ";strategy") {
+			} else if strings.HasPrefix(lower, ";strategy") && len(raw_line) > 10 {
 				data.Strategy += raw_line[10:]
 			}
 			continue
@@ -296,7 +296,7 @@ func parseLoadFile88(reader io.Reader, coresize Address) (WarriorData, error) {
 				data.Name = strings.TrimSpace(raw_line[5:])
 			} else if strings.HasPrefix(lower, ";author") {
 				data.Author = strings.TrimSpace(raw_line[7:])
-			} else if strings.HasPrefix(lower, ";strategy") {
+			} else if strings.HasPrefix(lower, ";strategy") && len(raw_line) > 10 {
 				data.Strategy += raw_line[10:]
 			}
 			continue
